@@ -425,9 +425,25 @@ class C08(Prop):
         data = case['data']
         got = None
         try:
-            m = drive.Mon('dt', {'text': text, 'vars': ['x', 'y'], 'period': (period[0], period[1], 0.1)},
-                          pastify=(online and op in ('eventually', 'always', 'until')))
-            if online:
+            Pns = period_ns(period)
+            if not online and Pns % 20 == 0 and case['a_ns'] % (Pns // 20) == 0 and case['b_ns'] % (Pns // 20) == 0 \
+                    and (case['a_ns'] + case['b_ns']) % 3 != 0:
+                # the object was first used under a period of which the bounds ARE multiples (a twentieth of the real
+                # one) and re-configured afterwards: the check belongs to every evaluation, not to the first one
+                m = drive.Mon('dt', {'text': text, 'vars': ['x', 'y'], 'period': (Pns // 20, 'ns', 0.1)})
+                try:
+                    m.evaluate(drive.dt_dataset(data))
+                    m.spec.set_sampling_period(period[0], period[1], 0.1)
+                    v.info['nonmultiple:after-a-compatible-period'] = 1
+                except Exception:
+                    m = drive.Mon('dt', {'text': text, 'vars': ['x', 'y'], 'period': (period[0], period[1], 0.1)})
+                got = m.evaluate(drive.dt_dataset(data))
+            else:
+                m = drive.Mon('dt', {'text': text, 'vars': ['x', 'y'], 'period': (period[0], period[1], 0.1)},
+                              pastify=(online and op in ('eventually', 'always', 'until')))
+            if got is not None:
+                pass
+            elif online:
                 got = m.update(0, [('x', data['x'][0]), ('y', data['y'][0])])
             else:
                 got = m.evaluate(drive.dt_dataset(data))
